@@ -287,53 +287,114 @@ def _impl_hist(case):
     return out
 
 
-def _ana_species(rxns):
-    return sorted({s for l, r in rxns for s, c in l + r if c > 0})
+def _ana_species(net):
+    """species of a network snapshot {"rxns": [[l, r], ...], "iso": [...]} in label order"""
+    return sorted({s for l, r in net["rxns"] for s, c in l + r if c > 0} | set(net.get("iso", [])))
+
+
+def _ana_apply(H, ids, net, stage):
+    """applies one edit stage to the analysed hypergraph H and, in parallel, to the snapshot `net` the case predicts.
+    stage = list of  ["add", l, r] | ["rep", i, l, r] (reaction i replaced under its OLD id) |
+                     ["coef", i, "l"|"r", species, c] (coefficient edited in place) | ["rmsp", species] (remove_species with
+                     prune_orphans=False: the species stays, without incidence)"""
+    for op in stage:
+        k = op[0]
+        if k == "add":
+            e = H.add_rxn({s: c for s, c in op[1]}, {s: c for s, c in op[2]})
+            ids.append(e.id)
+            net["rxns"].append([[list(x) for x in op[1]], [list(x) for x in op[2]]])
+        elif k == "rep":
+            eid = ids[op[1]]
+            H.remove_rxn(eid)
+            H.add_rxn({s: c for s, c in op[2]}, {s: c for s, c in op[3]}, edge_id=eid)
+            net["rxns"][op[1]] = [[list(x) for x in op[2]], [list(x) for x in op[3]]]
+        elif k == "coef":
+            e = H.edges[ids[op[1]]]
+            (e.reactants if op[2] == "l" else e.products)[op[3]] = op[4]
+            for x in net["rxns"][op[1]][0 if op[2] == "l" else 1]:
+                if x[0] == op[3]:
+                    x[1] = op[4]
+        elif k == "rmsp":
+            H.remove_species(op[1], prune_orphans=False)
+            for rx in net["rxns"]:
+                rx[0] = [x for x in rx[0] if x[0] != op[1]]
+                rx[1] = [x for x in rx[1] if x[0] != op[1]]
+            if op[1] not in net["iso"]:
+                net["iso"].append(op[1])
+        else:
+            raise AssertionError(op)
+        occ = {s for l, r in net["rxns"] for s, c in l + r if c > 0}
+        # remove_rxn drops species that lose their last incidence — except that a kept (isolated) species has none to lose
+        net["iso"] = [z for z in net["iso"] if z not in occ]
+
+
+def _ana_apply_snapshot(net, stage):
+    """the predicted effect of an edit stage on the snapshot alone (used by the encoder; _ana_apply does the same next to the
+    real hypergraph and the oracle compares the two)"""
+    class _Edge:
+        def __init__(self):
+            self.id = None
+            self.reactants = {}
+            self.products = {}
+
+    class _FakeH:
+        def __init__(self):
+            self.edges = collections.defaultdict(_Edge)
+
+        def add_rxn(self, *a, **k):
+            return _Edge()
+
+        def remove_rxn(self, eid):
+            pass
+
+        def remove_species(self, sp, prune_orphans=True):
+            pass
+    import collections
+    _ana_apply(_FakeH(), [None] * (len(net["rxns"]) + len(stage)), net, stage)
 
 
 def _ana_replay(case):
-    """runs the analyzer history; yields per call (op, answer kind, analyzer, cumulative reactions, species ranks of the last compute)"""
+    """runs the analyzer history; yields per call (op, answer kind, analyzer, current network snapshot, snapshot at the
+    last successful compute)"""
+    import copy
     from synkit.CRN.Hypergraph.hypergraph import CRNHyperGraph
     from synkit.CRN.Petri.analyzer import PetriAnalyzer
     H = CRNHyperGraph()
-    cum = []
-
-    def add(stage):
-        for l, r in stage:
-            H.add_rxn({s: c for s, c in l}, {s: c for s, c in r})
-            cum.append([l, r])
-    add(case["stages"][0])
+    ids = []
+    net = dict(rxns=[], iso=[])
+    _ana_apply(H, ids, net, [["add", l, r] for l, r in case["stages"][0]])
     an = PetriAnalyzer(H, max_siphon_size=case.get("k"))
     nxt = 1
-    computed = None                      # reactions of the network at the last successful compute
+    computed = None
     for op in case["ops"]:
         if op == "C":
             try:
                 an.compute_siphons_traps()
-                computed = [list(x) for x in cum]
-                yield op, "done", an, list(cum), computed
+                computed = copy.deepcopy(net)
+                yield op, "done", an, copy.deepcopy(net), computed, H
             except ValueError:
-                yield op, "err", an, list(cum), computed
+                yield op, "err", an, copy.deepcopy(net), computed, H
         elif op == "R":
-            yield op, "read", an, list(cum), computed
+            yield op, "read", an, copy.deepcopy(net), computed, H
         elif op == "E":
-            add(case["stages"][nxt])
+            st = case["stages"][nxt]
+            _ana_apply(H, ids, net, st if (st and isinstance(st[0][0], str)) else [["add", l, r] for l, r in st])
             nxt += 1
-            yield op, "done", an, list(cum), computed
+            yield op, "done", an, copy.deepcopy(net), computed, H
 
 
 def _impl_ana(case):
     out = []
-    for op, kind, an, cum, computed in _ana_replay(case):
+    for op, kind, an, net, computed, H in _ana_replay(case):
         if kind == "done":
             out.append([4])
         elif kind == "err":
             out.append([9])
         else:
-            rank = {s: i for i, s in enumerate(_ana_species(computed or []))}
+            rank = {s: i for i, s in enumerate(_ana_species(computed or dict(rxns=[], iso=[])))}
 
             def conv(sets):
-                return [] if sets is None else [[S(sorted(rank[x] for x in st)) for st in sets]]
+                return [] if sets is None else [[S(sorted(rank.get(x, 999) for x in st)) for st in sets]]
             out.append([1, conv(an.siphons), conv(an.traps)])
     return out
 
@@ -401,13 +462,19 @@ def coq_case(case):
                                            cN(DEFAULT_MAX_STATES if ms is None else ms),
                                            cN(DEFAULT_MAX_DEPTH if md is None else md))
     if t == "ana":
-        def cnetw(rxns):
-            sp = _ana_species(rxns)
+        import copy
+
+        class _NoH:                       # the encoder replays the edits on the predicted snapshot only
+            def __getattr__(self, name):
+                raise AssertionError(name)
+
+        def cnetw(net):
+            sp = _ana_species(net)
             rank = {s: i for i, s in enumerate(sp)}
             return cpair(cnat(len(sp)), clist([cpair(_cside([x for x in l if x[1] > 0], rank), _cside([x for x in r if x[1] > 0], rank))
-                                               for l, r in rxns]))
-        cum = [list(x) for x in case["stages"][0]]
-        net0 = cnetw(cum)
+                                               for l, r in net["rxns"]]))
+        net = dict(rxns=[[[list(x) for x in l], [list(x) for x in r]] for l, r in case["stages"][0]], iso=[])
+        net0 = cnetw(net)
         nxt = 1
         ops = []
         for op in case["ops"]:
@@ -416,9 +483,10 @@ def coq_case(case):
             elif op == "R":
                 ops.append("AnRead")
             else:
-                cum += [list(x) for x in case["stages"][nxt]]
+                st = case["stages"][nxt]
+                _ana_apply_snapshot(net, st if (st and isinstance(st[0][0], str)) else [["add", l, r] for l, r in st])
                 nxt += 1
-                ops.append("AnEdit %s" % cnetw(cum))
+                ops.append("AnEdit %s" % cnetw(net))
         k = case.get("k")
         return "run_ana %s %s %s" % ("None" if k is None else "(Some %s)" % cnat(k), net0, clist(ops))
     if t == "hist":
@@ -780,13 +848,15 @@ def _oracle_hist(case):
 
 def _oracle_ana(case):
     """After every successful compute the stored siphons / traps are, by definition, the inclusion-minimal ones (within
-    max_siphon_size) of the network AS IT IS AT THAT MOMENT; a read returns the results of the last successful compute."""
+    max_siphon_size) of the network AS IT IS AT THAT MOMENT — whatever was analysed before and however the network object was
+    edited in place since; a read returns the results of the last successful compute.  The network 'as it is' is read off the
+    hypergraph's own primary data (species set, reactions) and must be the one the case predicted."""
     fails = []
     k = case.get("k")
 
-    def want(rxns):
-        sp = _ana_species(rxns)
-        rx = [({s for s, c in l if c > 0}, {s for s, c in r if c > 0}) for l, r in rxns]
+    def want(net):
+        sp = _ana_species(net)
+        rx = [({s for s, c in l if c > 0}, {s for s, c in r if c > 0}) for l, r in net["rxns"]]
 
         def is_siphon(X):
             return bool(X) and all((not (p & X)) or bool(r & X) for r, p in rx)
@@ -799,10 +869,15 @@ def _oracle_ana(case):
             mins = {x for x in sets if not any(y < x for y in sets)}
             res.append({x for x in mins if k is None or len(x) <= k})
         return res
-    for i, (op, kind, an, cum, computed) in enumerate(_ana_replay(case)):
+    for i, (op, kind, an, net, computed, H) in enumerate(_ana_replay(case)):
+        have = sorted((sorted(e.reactants.to_dict().items()), sorted(e.products.to_dict().items())) for e in H.edges.values())
+        pred = sorted((sorted((s, c) for s, c in l if c > 0), sorted((s, c) for s, c in r if c > 0)) for l, r in net["rxns"])
+        if have != pred or sorted(H.species) != _ana_species(net):
+            return [dict(clause="history-generator", detail="call %d: the hypergraph holds %r / species %r, the case predicted %r / %r"
+                         % (i, have, sorted(H.species), pred, _ana_species(net)))]
         if kind == "err":
-            if cum and _ana_species(cum):
-                fails.append(dict(clause="analyzer-history", detail="call %d: compute raised on a network with reactions %r" % (i, cum)))
+            if net["rxns"] and _ana_species(net):
+                fails.append(dict(clause="analyzer-history", detail="call %d: compute raised on a network with reactions %r" % (i, net["rxns"])))
             continue
         if op not in ("C", "R") or computed is None:
             if op == "R" and computed is None and (an.siphons is not None or an.traps is not None):
@@ -813,9 +888,9 @@ def _oracle_ana(case):
         gt = None if an.traps is None else {frozenset(x) for x in an.traps}
         if gs != ws or gt != wt:
             fails.append(dict(clause="analyzer-history",
-                              detail="call %d (%s) of %r: analyzer holds siphons %r traps %r; the network at the last compute (%d reactions) has "
-                                     "siphons %r traps %r" % (i, op, case["ops"], sorted(map(sorted, gs or [])), sorted(map(sorted, gt or [])),
-                                                              len(computed), sorted(map(sorted, ws)), sorted(map(sorted, wt)))))
+                              detail="call %d (%s) of %r, edit stages %r: analyzer holds siphons %r traps %r; the network at the last compute %r has "
+                                     "siphons %r traps %r" % (i, op, case["ops"], case["stages"][1:], sorted(map(sorted, gs or [])),
+                                                              sorted(map(sorted, gt or [])), computed, sorted(map(sorted, ws)), sorted(map(sorted, wt)))))
             break
     return fails[:2]
 
@@ -878,6 +953,10 @@ def distribution(cases, obss):
             h["cases"] += 1
             h["computes"] += sum(1 for op in c["ops"] if op == "C")
             h["edits"] += sum(1 for op in c["ops"] if op == "E")
+            for st in c["stages"][1:]:
+                for e_ in st:
+                    kk = e_[0] if isinstance(e_[0], str) else "add"
+                    h.setdefault("edit_kinds", {})[kk] = h.setdefault("edit_kinds", {}).get(kk, 0) + 1
             h["reads"] += sum(1 for op in c["ops"] if op == "R")
             h["compute_errors"] += sum(1 for a in o if a[0] == 9)
             h["results_changed"] += len({repr(a) for a in o if a[0] == 1 and (a[1] or a[2])}) >= 2
@@ -1466,20 +1545,69 @@ ANA_PATTERNS = [["R", "C", "R", "E", "R", "C", "R"], ["C", "E", "C", "R"], ["C",
                 ["C", "R", "E", "C", "R", "E", "C", "R"]]
 
 
+def _ana_edit_stage(rng, net, more):
+    """one edit stage on the snapshot `net` (mutated to the predicted result): mostly edits that keep the reaction ids and the
+    number of species; `more` = reactions still to be added"""
+    import copy
+    stage = []
+    for _ in range(rng.choice([1, 1, 2])):
+        z = rng.random()
+        rx = net["rxns"]
+        sp = _ana_species(net) or ["A"]
+        if z < 0.3 and more:
+            l, r = more.pop(0)
+            stage.append(["add", l, r])
+        elif z < 0.6 and rx:
+            i = rng.randrange(len(rx))
+            pool = sp + [x for x in ("A", "B", "Q") if x not in sp][:1]
+            l, r = _rand_side(rng, pool, 2), _rand_side(rng, pool, 2)
+            if not l and not r:
+                continue
+            stage.append(["rep", i, l, r])
+        elif z < 0.75 and rx:
+            i = rng.randrange(len(rx))
+            sd = "l" if (rx[i][0] and rng.random() < 0.5) or not rx[i][1] else "r"
+            lst = rx[i][0] if sd == "l" else rx[i][1]
+            if not lst:
+                continue
+            x = rng.choice(lst)
+            stage.append(["coef", i, sd, x[0], rng.choice([c for c in (1, 2, 3) if c != x[1]])])
+        elif rx:
+            occ = sorted({s for l, r in rx for s, c in l + r})
+            cand = [x for x in occ if all(any(y != x for y, _ in l + r) for l, r in rx if any(y == x for y, _ in l + r))]
+            if not cand:
+                continue
+            stage.append(["rmsp", rng.choice(cand)])
+        else:
+            continue
+        _ana_apply_snapshot(net, [copy.deepcopy(stage[-1])])
+    return stage
+
+
 def gen_analyzer_histories(n, rng):
+    import copy
     cases = []
-    for base in gen_random_nets(3 * n, rng):
+    for base in gen_random_nets(4 * n, rng):
         rx = [r for r in base["rxns"]]
         if len(rx) < 2 or len(cases) >= n:
             continue
         pat = list(rng.choice(ANA_PATTERNS))
         ne = pat.count("E")
-        if len(rx) < ne + 1:
+        first = rx[:max(1, len(rx) // 2)]
+        more = [copy.deepcopy(r) for r in rx[len(first):]]
+        stages = [first]
+        net = dict(rxns=[[[list(x) for x in l], [list(x) for x in r]] for l, r in first], iso=[])
+        ok = True
+        for _ in range(ne):
+            st = _ana_edit_stage(rng, net, more)
+            if not st:
+                ok = False
+                break
+            stages.append(st)
+        if not ok:
             continue
-        cuts = sorted(rng.sample(range(1, len(rx)), ne))
-        stages = [rx[a:b] for a, b in zip([0] + cuts, cuts + [len(rx)])]
-        if rng.random() < 0.12:                       # nothing to analyse at first: compute raises, nothing may be stored
-            stages = [[]] + stages
+        if rng.random() < 0.1:                        # nothing to analyse at first: compute raises, nothing may be stored
+            stages = [[]] + [[["add", l, r] for l, r in first]] + stages[1:]
             pat = ["C", "R", "E"] + pat
         cases.append(dict(t="ana", kind="ana", stages=stages, k=rng.choice([None, None, 1, 2, 3]), ops=pat))
     return cases
@@ -1505,7 +1633,7 @@ def gen_cases(tier, rng):
     return cases
 
 
-LEVEL_TEXT = ("Machine-checked proof (Coq, 14 theorems, all closed under the global context) over an executable, structure-following model of "
+LEVEL_TEXT = ("Machine-checked proof (Coq, 15 theorems, all closed under the global context) over an executable, structure-following model of "
               "structure.py / net.py / realizability.py: (1) the siphon and trap index predicates equal the Petri-net definitions for every network "
               "and every species subset; (2) _minimal_sets returns exactly the inclusion-minimal candidates for every candidate list; (3) find_siphons / "
               "find_traps report exactly the minimal non-empty siphons / traps (for every max_size); (4) enabled <=> marking covers the reactants, "
